@@ -771,3 +771,85 @@ func soleIntField(t types.Type) string {
 	}
 	return name
 }
+
+// ---------- TS-WIDE
+
+// narrowProducts: multiplications (and left shifts) carried out in an integer
+// type narrower than 64 bits on a non-constant operand whose result is then
+// widened: the product wraps in the narrow type before the conversion can
+// help ("int64(days * 86400)" with an int32 days).
+func narrowProducts(fns []*ssa.Function) []*ssa.BinOp {
+	var out []*ssa.BinOp
+	for _, fn := range fns {
+		for _, b := range fn.Blocks {
+			for _, in := range b.Instrs {
+				bo, ok := in.(*ssa.BinOp)
+				if !ok || (bo.Op != token.MUL && bo.Op != token.SHL) {
+					continue
+				}
+				bt, ok := bo.Type().Underlying().(*types.Basic)
+				if !ok || bt.Info()&types.IsInteger == 0 {
+					continue
+				}
+				switch bt.Kind() {
+				case types.Int8, types.Int16, types.Int32, types.Uint8, types.Uint16, types.Uint32:
+				default:
+					continue
+				}
+				// a constant factor is needed for the product to be "a unit conversion"; two variables multiplied in
+				// a narrow type is no better
+				widened := false
+				for _, r := range referrersOf(bo) {
+					if cv, ok := r.(*ssa.Convert); ok {
+						if tb, ok := cv.Type().Underlying().(*types.Basic); ok && tb.Info()&types.IsInteger != 0 {
+							switch tb.Kind() {
+							case types.Int64, types.Uint64, types.Int, types.Uint, types.Uintptr:
+								widened = true
+							}
+						}
+					}
+				}
+				if widened {
+					out = append(out, bo)
+				}
+			}
+		}
+	}
+	return out
+}
+
+func ruleTSWide(c *Ctx) {
+	c.Rule("TS-WIDE", "no product is formed in a 32-bit (or narrower) integer type and widened afterwards: a day or unit count times a constant is computed in 64 bits", 0)
+	P := c.P
+	n := 0
+	for _, bo := range narrowProducts(P.ModuleFuncs()) {
+		n++
+		c.Bad(fmt.Sprintf("%s/narrow-product#%d", fnKey(bo.Parent()), n), P.pos(bo.Pos()), fmt.Sprintf("%s is computed in %s and widened afterwards: it wraps for large operands before the conversion (a date beyond ±24855 days decodes to a different instant)", strings.TrimSpace(bo.String()), bo.Type()))
+	}
+	if n == 0 {
+		c.OK("module/no-narrow-product", "-", "no multiplication or shift in a sub-64-bit integer type is widened afterwards")
+	}
+	fx := buildFixture(`package fx
+func bad(d int32) int64 { return int64(d * 86400) }
+func good(d int32) int64 { return int64(d) * 86400 }
+func alsoGood(a, b int32) int32 { return a * b }
+`)
+	if fx == nil {
+		c.Unk("fixture/TS-WIDE", "-", "fixture package did not build")
+		return
+	}
+	var ffns []*ssa.Function
+	for _, m := range fx.Members {
+		if f, ok := m.(*ssa.Function); ok {
+			ffns = append(ffns, f)
+		}
+	}
+	hits := map[string]bool{}
+	for _, bo := range narrowProducts(ffns) {
+		hits[bo.Parent().Name()] = true
+	}
+	o := c.ob(Discharged, "fixture/TS-WIDE", "-", fmt.Sprintf("positive fixture: flagged %v (expected exactly bad)", hits), false)
+	if !(len(hits) == 1 && hits["bad"]) {
+		o.Verdict, o.VerdictS = Undecided, "undecided"
+	}
+}
